@@ -305,6 +305,14 @@ theorem run_sim {I : Impl σ α} {J : Impl τ α} {R : σ → τ → Prop} {ok :
     simp only [run]
     exact ih (step_sim S hr op hok.1) hok.2
 
+/-- a state-independent condition on every operation of the history gives `AllOk` -/
+theorem allOk_of_forall (J : Impl τ α) (ok : Option τ → Op α → Prop) (h : List (Op α))
+    (hh : ∀ op ∈ h, ∀ st, ok st op) (v : World τ) : AllOk J ok v h := by
+  induction h generalizing v with
+  | nil => trivial
+  | cons op h ih =>
+    exact ⟨hh op List.mem_cons_self _, ih (fun o ho => hh o (List.mem_cons_of_mem _ ho)) _⟩
+
 theorem wrel_empty (R : σ → τ → Prop) : WRel R (World.empty : World σ) (World.empty : World τ) := by
   intro k; simp [World.empty, ORel]
 
